@@ -127,7 +127,8 @@ Inductive ev :=
 | ESql (conn : nat) (c : cmd) (id : bytes) (r : res)
 | EKill (conn : nat).
 
-Inductive ores := OSkipped | OOk | OErr | OP2 (done : bool).
+(* OErrBad: the error handed to database/sql is (wraps) driver.ErrBadConn *)
+Inductive ores := OSkipped | OOk | OErr | OErrBad | OP2 (done : bool).
 
 Inductive op :=
 | OAuto (g : nat) (via : option nat) (slow : bool)
@@ -136,6 +137,11 @@ Inductive op :=
        XA branch execution timeout *)
 | OLocal                                           (* statement outside any global tx, fresh connection *)
 | OPhase2 (target : nat) (commit stranger : bool)  (* phase two for the branch registered by op #target *)
+| ORetry (g : nat) (slow : bool)
+    (* database/sql's retry: the statement is run again on a NEW connection iff the attempt just
+       before it handed back driver.ErrBadConn (db.ExecContext: up to two of these follow a statement) *)
+| ORetire (target : nat)
+    (* the pool retires the connection of op #target (idle limit, lifetime, db.Close): driver Close *)
 | ONop.
 
 Record env := {
@@ -143,7 +149,8 @@ Record env := {
   e_xid : nat -> bytes;         (* xid of global transaction g *)
   e_bid : nat -> N;             (* branch id the coordinator assigns to the k-th registration *)
   e_refuse : nat -> bool;       (* the k-th registration is refused (result code or transport) *)
-  e_fault : cmd -> nat -> bool  (* the n-th command of that kind fails without a state change *)
+  e_fault : cmd -> nat -> bool; (* the n-th command of that kind fails without a state change *)
+  e_fbad : cmd -> nat -> bool   (* ... and the error it fails with is driver.ErrBadConn *)
 }.
 
 Record br := {
@@ -169,35 +176,37 @@ Record st := {
   s_jour : list ev;     (* newest first *)
   s_out : list ores;    (* newest first *)
   s_conns : list (nat * cst);   (* newest binding first *)
-  s_opconn : list (nat * nat)   (* op index -> connection its statement ran on *)
+  s_opconn : list (nat * nat);  (* op index -> connection its statement ran on *)
+  s_gone : list nat;            (* connections database/sql no longer has in its pool *)
+  s_closed : list nat           (* sessions that are closed (driver Close of a connection that is not held, or dropped) *)
 }.
 
 Definition init : st :=
   {| s_brs := []; s_nreg := 0; s_nconn := 1 (* #0 is the version probe of sql.Open *); s_nop := 0;
-     s_cnt := fun _ => 0%nat; s_jour := []; s_out := []; s_conns := []; s_opconn := [] |}.
+     s_cnt := fun _ => 0%nat; s_jour := []; s_out := []; s_conns := []; s_opconn := []; s_gone := []; s_closed := [] |}.
 
 Definition add_ev (s : st) (e : ev) : st :=
   {| s_brs := s_brs s; s_nreg := s_nreg s; s_nconn := s_nconn s; s_nop := s_nop s; s_cnt := s_cnt s;
-     s_jour := e :: s_jour s; s_out := s_out s; s_conns := s_conns s; s_opconn := s_opconn s |}.
+     s_jour := e :: s_jour s; s_out := s_out s; s_conns := s_conns s; s_opconn := s_opconn s; s_gone := s_gone s; s_closed := s_closed s |}.
 Definition set_brs (s : st) (l : list br) : st :=
   {| s_brs := l; s_nreg := s_nreg s; s_nconn := s_nconn s; s_nop := s_nop s; s_cnt := s_cnt s;
-     s_jour := s_jour s; s_out := s_out s; s_conns := s_conns s; s_opconn := s_opconn s |}.
+     s_jour := s_jour s; s_out := s_out s; s_conns := s_conns s; s_opconn := s_opconn s; s_gone := s_gone s; s_closed := s_closed s |}.
 Definition bump_conn (s : st) : st :=
   {| s_brs := s_brs s; s_nreg := s_nreg s; s_nconn := S (s_nconn s); s_nop := s_nop s; s_cnt := s_cnt s;
-     s_jour := s_jour s; s_out := s_out s; s_conns := s_conns s; s_opconn := s_opconn s |}.
+     s_jour := s_jour s; s_out := s_out s; s_conns := s_conns s; s_opconn := s_opconn s; s_gone := s_gone s; s_closed := s_closed s |}.
 Definition bump_reg (s : st) : st :=
   {| s_brs := s_brs s; s_nreg := S (s_nreg s); s_nconn := s_nconn s; s_nop := s_nop s; s_cnt := s_cnt s;
-     s_jour := s_jour s; s_out := s_out s; s_conns := s_conns s; s_opconn := s_opconn s |}.
+     s_jour := s_jour s; s_out := s_out s; s_conns := s_conns s; s_opconn := s_opconn s; s_gone := s_gone s; s_closed := s_closed s |}.
 Definition set_conn (s : st) (c : nat) (x : cst) : st :=
   {| s_brs := s_brs s; s_nreg := s_nreg s; s_nconn := s_nconn s; s_nop := s_nop s; s_cnt := s_cnt s;
-     s_jour := s_jour s; s_out := s_out s; s_conns := (c, x) :: s_conns s; s_opconn := s_opconn s |}.
+     s_jour := s_jour s; s_out := s_out s; s_conns := (c, x) :: s_conns s; s_opconn := s_opconn s; s_gone := s_gone s; s_closed := s_closed s |}.
 Definition set_opconn (s : st) (c : nat) : st :=
   {| s_brs := s_brs s; s_nreg := s_nreg s; s_nconn := s_nconn s; s_nop := s_nop s; s_cnt := s_cnt s;
-     s_jour := s_jour s; s_out := s_out s; s_conns := s_conns s; s_opconn := (s_nop s, c) :: s_opconn s |}.
+     s_jour := s_jour s; s_out := s_out s; s_conns := s_conns s; s_opconn := (s_nop s, c) :: s_opconn s; s_gone := s_gone s; s_closed := s_closed s |}.
 (* the op is over: record its outcome *)
 Definition finish (s : st) (o : ores) : st :=
   {| s_brs := s_brs s; s_nreg := s_nreg s; s_nconn := s_nconn s; s_nop := S (s_nop s); s_cnt := s_cnt s;
-     s_jour := s_jour s; s_out := o :: s_out s; s_conns := s_conns s; s_opconn := s_opconn s |}.
+     s_jour := s_jour s; s_out := o :: s_out s; s_conns := s_conns s; s_opconn := s_opconn s; s_gone := s_gone s; s_closed := s_closed s |}.
 
 Fixpoint lookup {A} (k : nat) (l : list (nat * A)) : option A :=
   match l with
@@ -222,7 +231,12 @@ Definition emit (s : st) (conn : nat) (id : bytes) (t : list (cmd * res)) : st :
   {| s_brs := s_brs s; s_nreg := s_nreg s; s_nconn := s_nconn s; s_nop := s_nop s;
      s_cnt := fun c => (s_cnt s c + count_cmd c t)%nat;
      s_jour := List.rev (map (fun cr => ESql conn (fst cr) id (snd cr)) t) ++ s_jour s; s_out := s_out s;
-     s_conns := s_conns s; s_opconn := s_opconn s |}.
+     s_conns := s_conns s; s_opconn := s_opconn s; s_gone := s_gone s; s_closed := s_closed s |}.
+
+Definition close_conn (s : st) (c : nat) : st :=
+  {| s_brs := s_brs s; s_nreg := s_nreg s; s_nconn := s_nconn s; s_nop := s_nop s; s_cnt := s_cnt s;
+     s_jour := s_jour s; s_out := s_out s; s_conns := s_conns s; s_opconn := s_opconn s; s_gone := s_gone s;
+     s_closed := c :: s_closed s |}.
 
 Definition mk_br (o : nat) (xid : bytes) (b : N) (conn : nat) (d : dbst) (kept sfail : bool) : br :=
   {| r_op := o; r_xid := xid; r_b := b; r_conn := conn; r_db := d; r_kept := kept; r_fin := false; r_sfail := sfail |}.
@@ -276,8 +290,49 @@ Definition busy_on (l : list br) (c o : nat) : bool :=
 Definition start_ok (t : list (cmd * res)) : bool :=
   match t with (START, ROk) :: _ => true | _ => false end.
 
-Definition do_auto (E : env) (s0 : st) (g : nat) (via : option nat) (slow : bool) : st :=
+(* which command's error Commit / Rollback / BeginTx hand to the caller (command kind, offset
+   among this branch's commands of that kind); None: an error value made by the proxy or the server *)
+Definition src (c : cmd) (off : nat) (r : res) : option (cmd * nat) :=
+  match r with RFault => Some (c, off) | _ => None end.
+Definition err_src (t : list (cmd * res)) : option (cmd * nat) :=
+  match t with
+  | [(START, r)] => src START 0 r
+  | (START, _) :: (STMT, r2) :: rest =>
+      if negb (res_ok r2) then src STMT 0 r2
+      else match rest with
+           | [(END_, r3); (END_, _); (ROLLBACK, r5)] => if res_ok r5 then src END_ 0 r3 else src ROLLBACK 0 r5
+           | [(END_, _); (ROLLBACK, _); (ROLLBACK, r5)] => src ROLLBACK 1 r5
+           | [(END_, _); (PREPARE, r4); (ROLLBACK, r5)] => if res_ok r5 then src PREPARE 0 r4 else src ROLLBACK 0 r5
+           | _ => None
+           end
+  | _ => None
+  end.
+
+Definition kill_conn (c : nat) (l : list br) : list br :=
+  map (fun r => if Nat.eqb (r_conn r) c
+                then {| r_op := r_op r; r_xid := r_xid r; r_b := r_b r; r_conn := r_conn r;
+                        r_db := srv_kill (r_db r); r_kept := r_kept r; r_fin := r_fin r; r_sfail := r_sfail r |}
+                else r) l.
+
+(* database/sql drops connection c from its pool and calls the driver's Close: XAConn.Close keeps
+   the physical connection of a HELD XAConn open (phase two will need it), otherwise cleans the
+   branch context and closes the session (the server rolls back an ACTIVE / IDLE branch, a
+   PREPARED one survives detached) *)
+Definition retire_conn (s : st) (c : nat) : st :=
+  if existsb (Nat.eqb c) (s_gone s) then s
+  else
+    let cs := get_cst s c in
+    let s1 := {| s_brs := if c_kept cs then s_brs s else kill_conn c (s_brs s);
+                 s_nreg := s_nreg s; s_nconn := s_nconn s; s_nop := s_nop s; s_cnt := s_cnt s;
+                 s_jour := s_jour s; s_out := s_out s;
+                 s_conns := if c_kept cs then s_conns s else (c, cst0) :: s_conns s;
+                 s_opconn := s_opconn s; s_gone := c :: s_gone s;
+                 s_closed := if c_kept cs then s_closed s else c :: s_closed s |} in
+    s1.
+
+Definition do_auto_core (E : env) (s0 : st) (g : nat) (via : option nat) (slow : bool) : st :=
   let reuse := match via with Some t => lookup t (s_opconn s0) | None => None end in
+  let reuse := match reuse with Some c => if existsb (Nat.eqb c) (s_gone s0) then None else Some c | None => None end in
   let conn := match reuse with Some c => c | None => s_nconn s0 end in
   let s0' := match reuse with Some _ => s0 | None => bump_conn s0 end in
   let s0' := set_opconn s0' conn in
@@ -302,15 +357,30 @@ Definition do_auto (E : env) (s0 : st) (g : nat) (via : option nat) (slow : bool
       auto_local (e_detach E) (busy_on (s_brs s) conn (s_nop s)) slow
                  (f START (cnt START)) (f STMT (cnt STMT)) (f END_ (cnt END_)) (f END_ (S (cnt END_)))
                  (f PREPARE (cnt PREPARE)) (f ROLLBACK (cnt ROLLBACK)) (f ROLLBACK (S (cnt ROLLBACK))) in
+    let bad := match o, err_src t with
+               | OErr, Some (c, off) => e_fbad E c (cnt c + off)
+               | _, _ => false
+               end in
     let s := emit s conn (xa_id xid b) t in
     let s := set_conn s conn {| c_active := act; c_kept := kept; c_cur := if kept then Some (s_nop s) else None |} in
-    finish (set_brs s (mk_br (s_nop s) xid b conn d kept (negb (start_ok t)) :: s_brs s)) o.
+    finish (set_brs s (mk_br (s_nop s) xid b conn d kept (negb (start_ok t)) :: s_brs s)) (if bad then OErrBad else o).
+
+(* an error that is driver.ErrBadConn makes database/sql drop the connection *)
+Definition post_bad (s : st) : st :=
+  match s_out s, s_opconn s with
+  | OErrBad :: _, (_, c) :: _ => retire_conn s c
+  | _, _ => s
+  end.
+
+Definition do_auto (E : env) (s0 : st) (g : nat) (via : option nat) (slow : bool) : st :=
+  post_bad (do_auto_core E s0 g via slow).
 
 Definition do_local (E : env) (s0 : st) : st :=
   let conn := s_nconn s0 in
   let s := set_opconn (bump_conn s0) conn in
   let r := if e_fault E STMT (s_cnt s STMT) then RFault else ROk in
-  finish (emit s conn [] [(STMT, r)]) (if res_ok r then OOk else OErr).
+  post_bad (finish (emit s conn [] [(STMT, r)])
+                   (if res_ok r then OOk else if e_fbad E STMT (s_cnt s STMT) then OErrBad else OErr)).
 
 Fixpoint find_br (t : nat) (l : list br) : option br :=
   match l with
@@ -324,10 +394,6 @@ Definition set_db_kept (d : dbst) (kept fin : bool) (r : br) : br :=
   {| r_op := r_op r; r_xid := r_xid r; r_b := r_b r; r_conn := r_conn r;
      r_db := d; r_kept := kept; r_fin := fin; r_sfail := r_sfail r |}.
 Definition unkeep (r : br) : br := set_db_kept (r_db r) false (r_fin r) r.
-(* the session of connection c is dropped by the server *)
-Definition kill_conn (c : nat) (l : list br) : list br :=
-  map (fun r => if Nat.eqb (r_conn r) c then set_db_kept (srv_kill (r_db r)) (r_kept r) (r_fin r) r else r) l.
-
 (* phase two at the server for one branch: the command arrives on the connection the keeper
    names (own = it is the one that started the branch) or on a new one *)
 Definition p2_local (detach f : bool) (d : dbst) (kept busy commit : bool) : (cmd * res) * dbst :=
@@ -349,14 +415,17 @@ Definition do_p2 (E : env) (s : st) (t : nat) (commit stranger : bool) : st :=
       let c := if commit then COMMIT else ROLLBACK in
       let strg := stranger && is_prepared (r_db r) in
       (* stranger: the phase-one process is gone: session dropped, nobody holds the connection *)
-      let s := if strg then set_brs (add_ev s (EKill (r_conn r))) (upd_br unkeep t (kill_conn (r_conn r) (s_brs s))) else s in
+      let s := if strg then close_conn (set_brs (add_ev s (EKill (r_conn r))) (upd_br unkeep t (kill_conn (r_conn r) (s_brs s)))) (r_conn r) else s in
       let d := if strg then srv_kill (r_db r) else r_db r in
       let kept := if strg then false else r_kept r in
       let conn := if kept then r_conn r else s_nconn s in
       let busy := busy_on (s_brs s) conn t in
-      let '(cr, d') := p2_local (e_detach E) (e_fault E c (s_cnt s c)) d kept busy commit in
+      let '(cr, d1) := p2_local (e_detach E) (e_fault E c (s_cnt s c)) d kept busy commit in
+      (* the keeper's connection may have been closed meanwhile: the driver answers ErrBadConn, nothing reaches the server *)
+      let dead := kept && existsb (Nat.eqb conn) (s_closed s) in
+      let d' := if dead then d else d1 in
       let s := if kept then s else bump_conn s in
-      let s := emit s conn id [cr] in
+      let s := emit s conn id (if dead then [] else [cr]) in
       (* releaseIfNecessary of the serving XAConn *)
       let cs := get_cst s conn in
       let rel := if kept && c_kept cs then c_cur cs else None in
@@ -364,7 +433,7 @@ Definition do_p2 (E : env) (s : st) (t : nat) (commit stranger : bool) : st :=
                then set_conn s conn {| c_active := c_active cs; c_kept := false; c_cur := c_cur cs |} else s in
       let l := upd_br (fun x => set_db_kept d' (r_kept x) true x) t (s_brs s) in
       let l := match rel with Some o => upd_br unkeep o l | None => l end in
-      finish (set_brs s l) (OP2 (res_ok (snd cr)))
+      finish (set_brs s l) (OP2 (if dead then false else res_ok (snd cr)))
     else finish s OSkipped
   end.
 
@@ -373,6 +442,15 @@ Definition step (E : env) (s : st) (o : op) : st :=
   | OAuto g via slow => do_auto E s g via slow
   | OLocal => do_local E s
   | OPhase2 t c x => do_p2 E s t c x
+  | ORetry g slow => match s_out s with
+                     | OErrBad :: _ => do_auto E s g None slow
+                     | _ => finish s OSkipped
+                     end
+  | ORetire t => match lookup t (s_opconn s) with
+                 | Some c => if existsb (Nat.eqb c) (s_gone s) then finish s OSkipped
+                             else finish (retire_conn s c) OOk
+                 | None => finish s OSkipped
+                 end
   | ONop => finish s OSkipped
   end.
 
